@@ -104,7 +104,7 @@ CHECKS.update({
                   "Coq, plus an implementation-only oracle including an edit-only replay differential.",
              note="trusted: hand-written Alive/Model.v, harness drivers/alive.py, Alive/Check.v; not modelled: C3 order, formulas (function of the name), space-level references, renaming, input values, "
                   "uncached cells (witnesses/corpus cases are (P)-only); ItemSpaces nested in ItemSpaces with shared precedents (harness/alivenest.py) are a (P)-only case class outside the model: "
-                  "must-die lists, deep reachability audit and edit-only replay differential on the implementation; generator avoids triggers of D14, C13a, C13c, C13e, D3, D22; partial: alive_untouched for derived cells and remove_bases",
+                  "must-die lists, deep reachability audit and edit-only replay differential on the implementation; generator avoids triggers of D14, C13a, C13c, C13e, D3; partial: alive_untouched for derived cells and remove_bases",
              technique="Coq invariant induction over fold_left step + vm_compute correspondence + implementation oracle (edit-only replay)", design="6/C13"),
  "C19": dict(text="Coq proof over a Gallina model of the model registry (dict, per-model names, the two AutoNamer counters, new/rename/_rename_samename/close/read/cur_model) that for all operation "
                   "sequences the registry maps unique valid names to the model of that name, no operation but close removes a model, a clashing model keeps its identity under <name>_BAKn, close "
